@@ -426,26 +426,26 @@ Lemma two_handles_refuted :
   exists ops s', run true (init [(0, 100)] 1000000) ops = Some s' /\ viol s' = true.
 Proof.
   exists [Open 0 0; Open 1 0; Seek 0 0 2; Write 0 50 true; Seek 1 0 2; Write 1 10 true].
-  eexists. split; vm_compute; reflexivity.
+  eexists. split; [vm_compute; reflexivity|]. vm_compute. reflexivity.
 Qed.
 (* write through a File after File::move (path_ still names the old path) *)
 Lemma write_after_move_refuted :
   exists ops s', run true (init [(0, 100)] 1000000) ops = Some s' /\ viol s' = true.
 Proof.
   exists [Open 0 0; Move 0 1; Seek 0 0 2; Write 0 10 true].
-  eexists. split; vm_compute; reflexivity.
+  eexists. split; [vm_compute; reflexivity|]. vm_compute. reflexivity.
 Qed.
 (* write through a File after File::unlink *)
 Lemma write_after_unlink_refuted :
   exists ops s', run true (init [(0, 100)] 1000000) ops = Some s' /\ viol s' = true.
 Proof.
   exists [Open 0 0; Unlink 0; Seek 0 0 2; Write 0 10 true].
-  eexists. split; vm_compute; reflexivity.
+  eexists. split; [vm_compute; reflexivity|]. vm_compute. reflexivity.
 Qed.
 (* move onto an existing path: std::map::insert keeps the old entry, the moved file vanishes, used_size_ stays *)
 Lemma move_onto_existing_refuted :
   exists ops s', run true (init [(0, 100); (1, 7)] 1000000) ops = Some s' /\ viol s' = true.
 Proof.
   exists [Open 0 0; Move 0 1].
-  eexists. split; vm_compute; reflexivity.
+  eexists. split; [vm_compute; reflexivity|]. vm_compute. reflexivity.
 Qed.
